@@ -342,6 +342,14 @@ func (s *Sim) NewMintQuote(amount uint64, locked bool) *MintQ {
 		return nil
 	}
 	mq := &MintQ{Id: q.Id, Hash: q.PaymentHash, Amount: amount, Key: key}
+	// the invoice handed out asks for at least the quoted amount (the model's own client
+	// saturates the encoded value above 2^63 msat, where no verdict is possible)
+	if inv := s.W.Invoice(q.PaymentHash); inv != nil && (s.E.Opts.Backend != "" || amount <= (1<<63)/1000) {
+		want := new(big.Int).Mul(new(big.Int).SetUint64(amount), big.NewInt(1000))
+		if new(big.Int).SetUint64(inv.AmountMsat).Cmp(want) < 0 {
+			s.mismatch("mintquote", "accepted", "invoice-for-less-than-the-quoted-amount", fmt.Sprintf("quote %s for %d sat carries an invoice of %d msat", q.Id[:8], amount, inv.AmountMsat))
+		}
+	}
 	s.MintQs = append(s.MintQs, mq)
 	s.logf("mintquote(%d) = %s", amount, q.Id[:8])
 	s.done("mintquote")
